@@ -35,7 +35,15 @@ SRV_CERTS = {
     "selfsigned": dict(file="srv-selfsigned", issuer="self",     when="now",    dns={"localhost"},    ip={"127.0.0.1"}),
     "wrongca":    dict(file="srv-wrongca",    issuer="B",        when="now",    dns={"localhost"},    ip={"127.0.0.1"}),
     "forged":     dict(file="srv-forged",     issuer="forged-A", when="now",    dns={"localhost"},    ip={"127.0.0.1"}),
+    # name-matching family: issued by A, valid now; what matters is what the certificate is issued FOR
+    "wild":       dict(file="srv-wild",       issuer="A", when="now", dns={"*.example.test"},     ip=set(), cn="vf-c07 wild"),
+    "exact":      dict(file="srv-exact",      issuer="A", when="now", dns={"api.example.test"},   ip=set(), cn="vf-c07 exact"),
+    "partial":    dict(file="srv-partial",    issuer="A", when="now", dns={"a*.example.test"},    ip=set(), cn="vf-c07 partial"),
+    "midwild":    dict(file="srv-midwild",    issuer="A", when="now", dns={"www.*.example.test"}, ip=set(), cn="vf-c07 midwild"),
+    "iponly":     dict(file="srv-iponly",     issuer="A", when="now", dns=set(),                  ip={"127.0.0.1"}, cn="vf-c07 iponly"),
+    "cnonly":     dict(file="srv-cnonly",     issuer="A", when="now", dns=set(),                  ip=set(), cn="api.example.test"),
 }
+BASE_CERTS = ("valid", "dnsonly", "wrongname", "expired", "notyet", "selfsigned", "wrongca", "forged")   # chain/validity family
 CLI_CERTS = {
     "none":       None,
     "trusted":    dict(file="cli-trusted",    issuer="A",        when="now"),
@@ -56,7 +64,12 @@ TRUST = {
     # file replaces) happens to trust the other CA
     "ca-wrong+default-right": dict(cafile="ca-wrong", capath="-", defstore="ca-right", anchors={"B"}),
 }
-TARGET_HOST = {"ip": "127.0.0.1", "name": "localhost", "othername": "evil.example"}
+TARGET_HOST = {"ip": "127.0.0.1", "name": "localhost", "othername": "evil.example",
+               # name-matching family (all resolve to 127.0.0.1 through the resolver shim)
+               "ex-api": "api.example.test", "ex-api-case": "API.Example.Test", "ex-api-dot": "api.example.test.",
+               "ex-2under": "a.b.example.test", "ex-2under-dot": "a.b.example.test.", "ex-3under": "x.y.z.example.test",
+               "ex-parent": "example.test", "ex-other": "api.other.test", "ex-abc": "abc.example.test",
+               "ex-www-foo": "www.foo.example.test", "ex-sub-api": "sub.api.example.test"}
 ISSUER_TAG = {"self": "self-signed", "forged-A": "forged-issuer"}
 
 DEFAULTS = dict(peer="openssl", garbage=0, verify="off", trust="none", icert=None, imin=0, tlscfg="enabled",
@@ -80,6 +93,59 @@ def mk(entry, **kw):
 
 
 # ------------------------------------------------------------------------ the expected outcome
+def _label_glob(pat, label):
+    """'*' inside ONE label matches any run of characters of that one label (the loose reading)"""
+    import fnmatch
+    return "." not in label and label != "" and fnmatch.fnmatchcase(label, pat)
+
+
+def name_verdict(cert, host):
+    """Is the certificate issued for `host`? From the certificate's names alone (RFC 6125 as configured in iora:
+    dNSName SANs decide when present; a wildcard counts only as the COMPLETE LEFT-MOST label and stands for exactly
+    one label; no partial wildcards; comparison is case-insensitive; the CN is a deprecated fallback only when there
+    is no dNSName SAN). -> ("accept"|"reject"|"either", tag)"""
+    h = host.lower()
+    dotted = h.endswith(".")
+    if dotted:
+        h = h[:-1]
+    v, tag = _name_match(cert, h)
+    if dotted and v == "accept":
+        return "either", "trailing-dot-reference-name"      # absolute-name form: not settled by RFC 6125, OpenSSL compares literally
+    return v, tag
+
+
+def _name_match(cert, h):
+    if cert["dns"]:
+        tags = set()
+        for pat in sorted(cert["dns"]):
+            p = pat.lower()
+            if "*" not in p:
+                if p == h:
+                    return "accept", None
+                continue
+            pl, hl = p.split("."), h.split(".")
+            if any("*" in l for l in pl[1:]):
+                if len(pl) == len(hl) and all(_label_glob(a, b) for a, b in zip(pl, hl)):
+                    tags.add("wildcard-not-leftmost")
+                continue
+            parent = ".".join(pl[1:])
+            if pl[0] != "*":
+                if h.endswith("." + parent) and _label_glob(pl[0], h[:-len(parent) - 1]):
+                    tags.add("partial-wildcard")
+                continue
+            if h == parent:
+                tags.add("wildcard-bare-parent")
+            elif h.endswith("." + parent):
+                left = h[:-len(parent) - 1]
+                if "." not in left and left:
+                    return "accept", None
+                tags.add("wildcard-multi-label")
+        return "reject", (sorted(tags)[0] if tags else "wrong-name")
+    if cert.get("cn", "").lower() == h:
+        return "either", "cn-fallback-without-san"
+    return "reject", "wrong-name"
+
+
 def chain_reasons(prefix, cert, anchors, trust):
     r = []
     if cert["issuer"] not in anchors:
@@ -114,8 +180,12 @@ def expect(c):
                 if c["target"] == "ip":
                     if host not in cert["ip"]:
                         eithers.append("ip-literal-target-without-ip-san")
-                elif host not in cert["dns"]:
-                    reasons.append("hostname:wrong-name")
+                else:
+                    nv, ntag = name_verdict(cert, host)
+                    if nv == "reject":
+                        reasons.append("hostname:" + ntag)
+                    elif nv == "either":
+                        eithers.append("hostname:" + ntag)
             if c["pauth"] == "require" and c["icert"] != "trusted":
                 eithers.append("peer-requires-client-cert-we-lack")
             if c["pauth"] == "request" and c["icert"] == "untrusted":
@@ -206,15 +276,15 @@ def matrix():
     # ---- transport client
     E = "transport-client"
     for trust in ("ca-right", "ca-wrong", "capath-right", "none", "default-right"):
-        for pcert in SRV_CERTS:
+        for pcert in BASE_CERTS:
             for target in ("ip", "name"):
                 api, send = apis[k % 3]; k += 1
                 add(mk(E, verify="on", trust=trust, pcert=pcert, target=target, api=api, send=send))
-    for pcert in SRV_CERTS:                                   # connecting by another name
+    for pcert in BASE_CERTS:                                   # connecting by another name
         api, send = apis[k % 3]; k += 1
         add(mk(E, verify="on", trust="ca-right", pcert=pcert, target="othername", api=api, send=send))
     for trust in ("ca-right", "none"):                        # verification switched off
-        for pcert in SRV_CERTS:
+        for pcert in BASE_CERTS:
             for target in ("ip", "name"):
                 api, send = apis[k % 3]; k += 1
                 add(mk(E, verify="off", trust=trust, pcert=pcert, target=target, api=api, send=send))
@@ -241,6 +311,18 @@ def matrix():
             for peer in ("openssl", "plaintext"):
                 add(mk(E, tlscfg=tlscfg, peer=peer, verify="on", trust="ca-right", api=api, send=send))
 
+    # name matching: what the certificate is issued for x the name the connection is made to, through
+    # connect(name) and through connectSync(address, ..., tlsServerName) (the HttpClient path)
+    E = "transport-client"
+    for pcert, target in NAME_CELLS:
+        for api, send in (apis[k % 3], ("sync-tlsname", "late")):
+            add(mk(E, verify="on", trust="ca-right", pcert=pcert, target=target, api=api, send=send))
+        k += 1
+    for pcert, target in (("wild", "ex-2under"), ("partial", "ex-abc")):
+        add(mk(E, verify="off", trust="none", pcert=pcert, target=target, api="sync-tlsname"))
+    for pcert, target in (("wild", "ex-api"), ("wild", "ex-2under"), ("exact", "ex-sub-api")):   # HttpClient (slow: its DnsClient times out first)
+        add(mk("http-client", verify="on", trust="ca-right", pcert=pcert, target=target))
+
     # lifecycle: start() failed once at the client cert/key load and was retried (files provisioned late /
     # still missing), and stop()+start(); crossed with the must-reject server-certificate classes and the floor
     E = "transport-client"
@@ -257,10 +339,10 @@ def matrix():
     # ---- HTTP client
     E = "http-client"
     for trust in ("ca-right", "ca-wrong", "none", "default-right", "ca-wrong+default-right"):
-        for pcert in SRV_CERTS:
+        for pcert in BASE_CERTS:
             for target in ("ip", "name"):
                 add(mk(E, verify="on", trust=trust, pcert=pcert, target=target))
-    for pcert in SRV_CERTS:
+    for pcert in BASE_CERTS:
         for target in ("ip", "name"):
             add(mk(E, verify="off", trust="none", pcert=pcert, target=target))
     for icert in ("none", "trusted", "untrusted"):
@@ -365,15 +447,31 @@ def matrix():
     return out
 
 
+NAME_CELLS = [
+    ("wild", "ex-api"), ("wild", "ex-api-case"), ("wild", "ex-api-dot"), ("wild", "ex-2under"), ("wild", "ex-2under-dot"),
+    ("wild", "ex-3under"), ("wild", "ex-parent"), ("wild", "ex-other"), ("wild", "name"),
+    ("exact", "ex-api"), ("exact", "ex-api-case"), ("exact", "ex-api-dot"), ("exact", "ex-sub-api"), ("exact", "ex-parent"),
+    ("exact", "ex-other"), ("exact", "ex-abc"),
+    ("partial", "ex-abc"), ("partial", "ex-api"), ("partial", "ex-other"),
+    ("midwild", "ex-www-foo"), ("midwild", "ex-api"),
+    ("iponly", "name"), ("iponly", "ex-api"), ("iponly", "ip"),
+    ("cnonly", "ex-api"), ("cnonly", "ex-2under"), ("cnonly", "ex-other"),
+    ("dnsonly", "ip"), ("valid", "ex-api"),
+]
+
+
 def reference_cells():
     """independent client against independent server (no iora in the loop): checks that the PKI
     material is what the coordinate tables above say it is, and that a sub-1.2 handshake is
     negotiable in the low-ceiling processes (otherwise the floor cells could never fire)."""
     cells = []
     for trust in ("ca-right", "ca-wrong"):
-        for pcert in SRV_CERTS:
+        for pcert in BASE_CERTS:
             for target in ("ip", "name", "othername"):
                 cells.append(mk("raw-raw", verify="on", trust=trust, pcert=pcert, target=target))
+    for pcert, target in NAME_CELLS:
+        if target != "ip":
+            cells.append(mk("raw-raw", verify="on", trust="ca-right", pcert=pcert, target=target))
     for icert in CLI_CERTS:
         cells.append(mk("raw-raw", verify="on", trust="ca-right", icert=icert, pauth="require", target="name", ref="client-cert"))
     for pmax in (10, 11, 12, 13):
